@@ -5,7 +5,7 @@
    which a defensive copy is missing.                                        *)
 From Coq Require Import NArith ZArith String Bool Arith List Lia.
 From V Require Import Model.Heap Model.HeapOps Model.HeapApi Model.HeapRun Spec.HeapSpec.
-From V Require Import Proofs.HeapFacts Proofs.HeapInterp Proofs.HeapApiFacts Proofs.HeapStoreFacts Proofs.HeapExec.
+From V Require Import Proofs.HeapFacts Proofs.HeapInterp Proofs.HeapApiFacts Proofs.HeapStoreFacts Proofs.HeapExec Proofs.HeapPriv.
 From V Require Import Gen.HeapWorld.
 Import ListNotations.
 Open Scope nat_scope.
@@ -173,6 +173,34 @@ Qed.
 Lemma report_empty_l : forall h h' e,
   values_kept h h' -> Forall (fun v => value FUEL h v <> None) e -> changed h h' e = [].
 Proof. intros. apply changed_nil; auto. Qed.
+
+(* ---- private attributes only: the invariant behind the delattr refusal ---- *)
+Lemma private_kept_l : forall vt W ops e h e' h',
+  private_attrs h -> run_state vt W ops e h = (e', h') -> private_attrs h'.
+Proof. intros. eapply run_state_priv; eauto. Qed.
+
+Lemma delattr_public_l : forall o name h,
+  private_attrs h -> setattr_allowed name = false -> py_delattr o name h = (h, RExc "AttributeError").
+Proof. exact delattr_public. Qed.
+
+Lemma history_d_l : forall W ops e h e' h',
+  private_attrs h -> forallb public_op_d ops = true -> run_state as_written W ops e h = (e', h') ->
+  unchanged_ns h h' /\ values_kept h h' /\ private_attrs h'.
+Proof.
+  intros W ops e h e' h' P Hp H.
+  assert (K : kept h h') by (eapply run_state_kept_d; eauto; apply safe_as_written).
+  split; [apply K|]. split; [apply unchanged_ns_values_l; apply K | eapply run_state_priv; eauto].
+Qed.
+
+Lemma history_from_scratch_l : forall W ops1 ops2 e1 h1 e2 h2,
+  forallb public_op_d (ops1 ++ ops2) = true ->
+  run_state as_written W ops1 [] [] = (e1, h1) -> run_state as_written W (ops1 ++ ops2) [] [] = (e2, h2) ->
+  values_kept h1 h2.
+Proof.
+  intros W ops1 ops2 e1 h1 e2 h2 Hp H1 H2.
+  rewrite run_state_app, H1 in H2. rewrite forallb_app in Hp. apply andb_true_iff in Hp.
+  eapply history_d_l; [|apply Hp|exact H2]. eapply run_state_priv; [apply priv_nil|eauto].
+Qed.
 
 (* ---- the attribute guards ---- *)
 Lemma world_names_ok : forallb (fun cs => forallb (fun pk => negb (setattr_allowed (fst pk))) (snd cs)) world_classes = true.
